@@ -76,7 +76,18 @@ pub enum Event {
 
 static EVENTS: Mutex<Vec<Event>> = Mutex::new(Vec::new());
 
+static LOGGING_PAUSED: std::sync::atomic::AtomicBool = std::sync::atomic::AtomicBool::new(false);
+
+/// Pause/resume the event log (the harness loads a manifest for its own bookkeeping while an
+/// invocation is in progress and does not want that recorded).
+pub fn pause_event_log(paused: bool) {
+    LOGGING_PAUSED.store(paused, std::sync::atomic::Ordering::SeqCst);
+}
+
 pub fn log_event(e: Event) {
+    if LOGGING_PAUSED.load(std::sync::atomic::Ordering::SeqCst) {
+        return;
+    }
     EVENTS.lock().unwrap_or_else(|e| e.into_inner()).push(e);
 }
 
